@@ -16,6 +16,7 @@ CONSTANTS
   NilPacketSock = TRUE
   CloseWaits = FALSE
   ErrAware = TRUE
+  RecheckAfterRecv = FALSE
   AcceptErrors = 1
 INVARIANTS NoBadEvent CleanAfterAllClosed
 VIEW View
